@@ -17,10 +17,11 @@ theorem AdjKind.tail {a : JNode} {l : List JNode} (h : AdjKind (a :: l)) : AdjKi
   | cons b r => exact h.2
 
 mutual
-/-- the trees the theorem is about: no metadata (v1), a node's schema node differs from those of its ancestors (`anc`),
-    adjacent instances of one schema node are of one kind -/
+/-- the trees the theorem is about: metadata on containers and list entries only (v2; leaves and leaf-list instances carry none),
+    a node's schema node differs from those of its ancestors (`anc`), adjacent instances of one schema node are of one kind -/
 def Ok (anc : List Nat) : JNode → Prop
-  | .mk _ sid _ _ _ metas _ _ kids => metas = [] ∧ sid ∉ anc ∧ AdjKind kids ∧ OkL (sid :: anc) kids
+  | .mk kind sid _ _ _ metas _ _ kids =>
+    ((kind = .leaf ∨ kind = .leaflist) → metas = []) ∧ sid ∉ anc ∧ AdjKind kids ∧ OkL (sid :: anc) kids
 def OkL (anc : List Nat) : List JNode → Prop
   | [] => True
   | n :: r => Ok anc n ∧ OkL anc r
@@ -105,11 +106,36 @@ theorem printSibs_cons (s : St) (pmod : Option Bytes) (before : List JNode) (n :
     · simp only [tailSt, Bool.false_eq_true, if_false, hp, List.nil_append, List.append_nil]
     · simp only [tailSt, if_true, List.nil_append, List.append_nil]
 
+theorem printMetas_eq : ∀ (ms : List JMeta) (s : St),
+    printMetas s ms = (cc (decide (s.lp ≥ s.level)) (ms.map metaText), if ms.isEmpty then s else { s with lp := s.level })
+  | [], s => by simp [printMetas, cc]
+  | m :: r, s => by
+    have ih := printMetas_eq r { s with lp := s.level }
+    simp only [printMetas, ih, List.map_cons, cc, List.isEmpty_cons, Bool.false_eq_true, if_false]
+    have hc : comma s = if decide (s.lp ≥ s.level) = true then [44] else [] := by unfold comma; simp
+    refine Prod.ext ?_ ?_
+    · simp [hc, metaText, List.append_assoc]
+    · cases r <;> simp
+
+/-- the `"@":{…}` member at the start of an object: no comma in front, the object level is "printed" afterwards -/
+theorem innerPre_meta (s : St) (m : JMeta) (ms : List JMeta) (inArray : Bool) (hlp : s.lp ≤ s.level) :
+    innerPre s (m :: ms) inArray =
+      ((if inArray && decide (s.lp ≥ s.level) then [44] else []) ++ [123] ++ ([34, 64, 34, 58] ++ metaObjText (m :: ms)),
+       { s with level := s.level + 1, lp := s.level + 1 }) := by
+  have h1 : ¬ (s.lp ≥ s.level + 1) := by omega
+  have h2 : ¬ (s.lp ≥ s.level + 1 + 1) := by omega
+  simp only [innerPre, metaObject, printMetas_eq, List.isEmpty_cons, Bool.false_eq_true, if_false, comma, h1, h2, decide_false,
+    List.nil_append, metaObjText, cc_false_eq_sep]
+
+theorem sep_cons_cc (a : Bytes) (ms : List Bytes) : sep (a :: ms) = a ++ cc true ms := by
+  have := cc_false_eq_sep (a :: ms)
+  simpa [cc] using this.symm
+
 /-- what the children of an inner node print, for every state at their level (supplied by the induction) -/
 def KidsSpec (anc : List Nat) (modName : Bytes) (kids : List JNode) : Prop :=
-  ∀ (s2 : St) (before' : List JNode) (L' : Nat) (O' : List Nat), 2 ≤ L' → Inv s2 L' O' (.closed false) →
+  ∀ (p : Bool) (s2 : St) (before' : List JNode) (L' : Nat) (O' : List Nat), 2 ≤ L' → Inv s2 L' O' (.closed p) →
     (∀ x, O'.head? = some x → x ∈ anc) →
-    ∃ s3 q, printSibs s2 (some modName) before' kids = (sep (members false (some modName) (items kids)), s3) ∧
+    ∃ s3 q, printSibs s2 (some modName) before' kids = (cc p (members false (some modName) (items kids)), s3) ∧
       Inv s3 L' O' (.closed q)
 
 def itemOf (n : JNode) : Item := ⟨n.sid, n.kind.isArr, n.modName, n.name, n.shown, body n⟩
@@ -142,7 +168,6 @@ theorem node_step_closed (s : St) (pmod : Option Bytes) (n : JNode) (isLast : Bo
       (simStep (L == 1) pmod (.closed p) (itemOf n) isLast).2 := by
   obtain ⟨kind, sid, modName, name, shown, metas, vkind, value, kids⟩ := n
   obtain ⟨hmeta, hfresh, hadj, hkids⟩ := hok
-  subst hmeta
   have hopen : isOpen s sid = false := isOpen_closed s L O p hinv anc hO sid hfresh
   have hmem := member_eq s L O p hinv pmod modName name
   obtain ⟨hl, ho, hpd, hle, hp⟩ := hinv
@@ -154,10 +179,12 @@ theorem node_step_closed (s : St) (pmod : Option Bytes) (n : JNode) (isLast : Bo
     exact ⟨hpd, trivial, hl, ho, hpd, hle, hp⟩
   · cases kind
     · -- leaf
+      have := hmeta (Or.inl rfl); subst this
       simp only [printNode, Bool.not_true, Bool.false_eq_true, if_false, List.isEmpty_nil, if_true, simStep, itemOf, JNode.shown,
         JNode.kind, NKind.isArr, JNode.sid, JNode.modName, JNode.name, body, tailSt, Bool.false_and]
       refine ⟨hpd, by rw [hmem], hl, ho, hpd, by simp [hl], by simp [hl]⟩
     · -- leaf-list
+      have := hmeta (Or.inr rfl); subst this
       simp only [printNode, Bool.not_true, Bool.false_eq_true, if_false, hopen, List.isEmpty_nil, simStep, itemOf, JNode.shown,
         JNode.kind, NKind.isArr, JNode.sid, JNode.modName, JNode.name, body, tailSt, Bool.false_and, if_true, Bool.not_false,
         Bool.and_false]
@@ -169,35 +196,71 @@ theorem node_step_closed (s : St) (pmod : Option Bytes) (n : JNode) (isLast : Bo
         refine ⟨hpd, by simp [hmem, List.append_assoc], ?_⟩
         simp [Inv, hl, ho, hpd]
     · -- container
-      have hs2 : Inv { s with level := s.level + 1 } (L + 1) O (.closed false) := by
-        refine ⟨by simp [hl], ho, hpd, by simp; omega, ?_⟩
-        simp; omega
-      obtain ⟨s3, q, hpk, hi3⟩ := hk { s with level := s.level + 1 } [] (L + 1) O (by omega) hs2
-        (fun x hx => List.mem_cons_of_mem _ (hO x hx))
-      simp only [printNode, Bool.not_true, Bool.false_eq_true, if_false, innerPre, List.isEmpty_nil, if_true, Bool.false_and,
-        List.append_nil, hpk, innerPost, simStep, itemOf, JNode.shown, JNode.kind, NKind.isArr, JNode.sid, JNode.modName,
-        JNode.name, body, tailSt, JNode.kids]
-      obtain ⟨h3l, h3o, h3p, _, _⟩ := hi3
-      refine ⟨h3p, by simp [hmem, List.append_assoc], ?_⟩
-      simp [Inv, hl, h3o, h3p]
-    · -- list
-      have hs2 : Inv { s with level := s.level + 1 + 1, opens := sid :: s.opens } (L + 2) (sid :: O) (.closed false) := by
-        refine ⟨by simp [hl], by simp [ho], hpd, by simp; omega, ?_⟩
-        simp; omega
-      obtain ⟨s3, q, hpk, hi3⟩ := hk { s with level := s.level + 1 + 1, opens := sid :: s.opens } [] (L + 2) (sid :: O) (by omega) hs2
-        (fun x hx => by simp at hx; subst hx; simp)
-      have hnc : ¬ (s.lp ≥ s.level + 1) := by omega
-      simp only [printNode, Bool.not_true, Bool.false_eq_true, if_false, hopen, innerPre, List.isEmpty_nil, if_true, Bool.true_and,
-        hnc, decide_false, List.append_nil, List.nil_append, hpk, innerPost, simStep, itemOf, JNode.shown, JNode.kind, NKind.isArr,
-        JNode.sid, JNode.modName, JNode.name, body, tailSt, JNode.kids, Bool.not_false, Bool.false_and, Bool.and_false, ge_iff_le]
-      obtain ⟨h3l, h3o, h3p, _, _⟩ := hi3
-      cases isLast
-      · simp only [Bool.false_eq_true, if_false, List.append_nil]
+      cases metas with
+      | nil =>
+        have hs2 : Inv { s with level := s.level + 1 } (L + 1) O (.closed false) := by
+          refine ⟨by simp [hl], ho, hpd, by simp; omega, ?_⟩
+          simp; omega
+        obtain ⟨s3, q, hpk, hi3⟩ := hk false { s with level := s.level + 1 } [] (L + 1) O (by omega) hs2
+          (fun x hx => List.mem_cons_of_mem _ (hO x hx))
+        simp only [printNode, Bool.not_true, Bool.false_eq_true, if_false, innerPre, List.isEmpty_nil, if_true, Bool.false_and,
+          List.append_nil, hpk, cc_false_eq_sep, metaMember, innerPost, simStep, itemOf, JNode.shown, JNode.kind, NKind.isArr, JNode.sid, JNode.modName,
+          JNode.name, body, tailSt, JNode.kids]
+        obtain ⟨h3l, h3o, h3p, _, _⟩ := hi3
         refine ⟨h3p, by simp [hmem, List.append_assoc], ?_⟩
         simp [Inv, hl, h3o, h3p]
-      · simp only [if_true]
+      | cons m ms =>
+        have hlp : s.lp ≤ s.level := by omega
+        have hs2 : Inv { s with level := s.level + 1, lp := s.level + 1 } (L + 1) O (.closed true) :=
+          ⟨by simp [hl], ho, hpd, by simp [hl], by simp [hl]⟩
+        obtain ⟨s3, q, hpk, hi3⟩ := hk true { s with level := s.level + 1, lp := s.level + 1 } [] (L + 1) O (by omega) hs2
+          (fun x hx => List.mem_cons_of_mem _ (hO x hx))
+        obtain ⟨h3l, h3o, h3p, _, _⟩ := hi3
+        simp only [printNode, Bool.not_true, Bool.false_eq_true, if_false, innerPre_meta s m ms false hlp, Bool.false_and, hpk, innerPost,
+          simStep, itemOf, JNode.shown, JNode.kind, NKind.isArr, JNode.sid, JNode.modName, JNode.name, body, tailSt, JNode.kids,
+          metaMember, List.isEmpty_cons, List.cons_append, List.nil_append, sep_cons_cc, if_true]
         refine ⟨h3p, by simp [hmem, List.append_assoc], ?_⟩
-        simp [Inv, hl, h3o, h3p, ho]
+        simp [Inv, hl, h3o, h3p]
+    · -- list
+      cases metas with
+      | nil =>
+        have hs2 : Inv { s with level := s.level + 1 + 1, opens := sid :: s.opens } (L + 2) (sid :: O) (.closed false) := by
+          refine ⟨by simp [hl], by simp [ho], hpd, by simp; omega, ?_⟩
+          simp; omega
+        obtain ⟨s3, q, hpk, hi3⟩ := hk false { s with level := s.level + 1 + 1, opens := sid :: s.opens } [] (L + 2) (sid :: O) (by omega) hs2
+          (fun x hx => by simp at hx; subst hx; simp)
+        have hnc : ¬ (s.lp ≥ s.level + 1) := by omega
+        simp only [printNode, Bool.not_true, Bool.false_eq_true, if_false, hopen, innerPre, List.isEmpty_nil, if_true, Bool.true_and,
+          hnc, decide_false, List.append_nil, List.nil_append, hpk, cc_false_eq_sep, metaMember, innerPost, simStep, itemOf, JNode.shown, JNode.kind, NKind.isArr,
+          JNode.sid, JNode.modName, JNode.name, body, tailSt, JNode.kids, Bool.not_false, Bool.false_and, Bool.and_false, ge_iff_le]
+        obtain ⟨h3l, h3o, h3p, _, _⟩ := hi3
+        cases isLast
+        · simp only [Bool.false_eq_true, if_false, List.append_nil]
+          refine ⟨h3p, by simp [hmem, List.append_assoc], ?_⟩
+          simp [Inv, hl, h3o, h3p]
+        · simp only [if_true]
+          refine ⟨h3p, by simp [hmem, List.append_assoc], ?_⟩
+          simp [Inv, hl, h3o, h3p, ho]
+      | cons m ms =>
+        have hlp : ({ s with level := s.level + 1, opens := sid :: s.opens } : St).lp ≤ ({ s with level := s.level + 1, opens := sid :: s.opens } : St).level := by
+          simp; omega
+        have hs2 : Inv { s with level := s.level + 1 + 1, opens := sid :: s.opens, lp := s.level + 1 + 1 } (L + 2) (sid :: O) (.closed true) :=
+          ⟨by simp [hl], by simp [ho], hpd, by simp [hl], by simp [hl]⟩
+        obtain ⟨s3, q, hpk, hi3⟩ := hk true { s with level := s.level + 1 + 1, opens := sid :: s.opens, lp := s.level + 1 + 1 } [] (L + 2) (sid :: O)
+          (by omega) hs2 (fun x hx => by simp at hx; subst hx; simp)
+        have hnc : ¬ (s.lp ≥ s.level + 1) := by omega
+        obtain ⟨h3l, h3o, h3p, _, _⟩ := hi3
+        simp only [printNode, Bool.not_true, Bool.false_eq_true, if_false, hopen, innerPre_meta _ m ms true hlp, if_true, Bool.true_and,
+          hnc, decide_false, List.append_nil, List.nil_append, hpk, innerPost, simStep, itemOf, JNode.shown, JNode.kind, NKind.isArr,
+          JNode.sid, JNode.modName, JNode.name, body, tailSt, JNode.kids, Bool.not_false, Bool.false_and, Bool.and_false, ge_iff_le,
+          metaMember, List.isEmpty_cons, List.cons_append, sep_cons_cc]
+        cases isLast
+        · simp only [Bool.false_eq_true, if_false, List.append_nil]
+          refine ⟨h3p, by simp [hmem, List.append_assoc], ?_⟩
+          simp [Inv, hl, h3o, h3p]
+        · simp only [if_true]
+          refine ⟨h3p, by simp [hmem, List.append_assoc], ?_⟩
+          simp [Inv, hl, h3o, h3p, ho]
 
 /-- one node and the tail of `json_print_node`, inside the open array of its schema node -/
 theorem node_step_opened (s : St) (pmod : Option Bytes) (n : JNode) (isLast : Bool) (L : Nat) (O : List Nat)
@@ -210,7 +273,6 @@ theorem node_step_opened (s : St) (pmod : Option Bytes) (n : JNode) (isLast : Bo
   have hopen : isOpen s n.sid = true := isOpen_opened s L O n.sid hinv
   obtain ⟨kind, sid, modName, name, shown, metas, vkind, value, kids⟩ := n
   obtain ⟨hmeta, hfresh, hadj, hkids⟩ := hok
-  subst hmeta
   obtain ⟨hl, ho, hpd, hlp⟩ := hinv
   simp only [JNode.sid, JNode.shown, JNode.modName, JNode.kids, JNode.kind] at hk hopen hl ho hlp harr ⊢
   cases shown
@@ -225,6 +287,7 @@ theorem node_step_opened (s : St) (pmod : Option Bytes) (n : JNode) (isLast : Bo
   · cases kind
     · simp [NKind.isArr] at harr
     · -- leaf-list item
+      have := hmeta (Or.inr rfl); subst this
       simp only [printNode, Bool.not_true, Bool.false_eq_true, if_false, hopen, List.isEmpty_nil, simStep, itemOf, JNode.shown,
         JNode.kind, NKind.isArr, JNode.sid, JNode.modName, JNode.name, body, tailSt, Bool.false_and, if_true, Bool.not_false,
         Bool.and_false]
@@ -237,23 +300,44 @@ theorem node_step_opened (s : St) (pmod : Option Bytes) (n : JNode) (isLast : Bo
         simp [Inv, hl, ho, hpd]
     · simp [NKind.isArr] at harr
     · -- list item
-      have hs2 : Inv { s with level := s.level + 1 } (L + 2) (sid :: O) (.closed false) := by
-        refine ⟨by simp [hl], ho, hpd, by simp; omega, ?_⟩
-        simp; omega
-      obtain ⟨s3, q, hpk, hi3⟩ := hk { s with level := s.level + 1 } [] (L + 2) (sid :: O) (by omega) hs2
-        (fun x hx => by simp at hx; subst hx; simp)
-      have hc : s.lp ≥ s.level := by omega
-      simp only [printNode, Bool.not_true, Bool.false_eq_true, if_false, hopen, innerPre, List.isEmpty_nil, if_true, Bool.true_and,
-        hc, decide_true, List.append_nil, List.nil_append, hpk, innerPost, simStep, itemOf, JNode.shown, JNode.kind, NKind.isArr,
-        JNode.sid, JNode.modName, JNode.name, body, tailSt, JNode.kids, Bool.not_false, Bool.false_and, Bool.and_false, ge_iff_le]
-      obtain ⟨h3l, h3o, h3p, _, _⟩ := hi3
-      cases isLast
-      · simp only [Bool.false_eq_true, if_false, List.append_nil]
-        refine ⟨h3p, by simp [List.append_assoc], ?_⟩
-        simp [Inv, hl, h3o, h3p]
-      · simp only [if_true]
-        refine ⟨h3p, by simp [List.append_assoc], ?_⟩
-        simp [Inv, hl, h3o, h3p, ho]
+      cases metas with
+      | nil =>
+        have hs2 : Inv { s with level := s.level + 1 } (L + 2) (sid :: O) (.closed false) := by
+          refine ⟨by simp [hl], ho, hpd, by simp; omega, ?_⟩
+          simp; omega
+        obtain ⟨s3, q, hpk, hi3⟩ := hk false { s with level := s.level + 1 } [] (L + 2) (sid :: O) (by omega) hs2
+          (fun x hx => by simp at hx; subst hx; simp)
+        have hc : s.lp ≥ s.level := by omega
+        simp only [printNode, Bool.not_true, Bool.false_eq_true, if_false, hopen, innerPre, List.isEmpty_nil, if_true, Bool.true_and,
+          hc, decide_true, List.append_nil, List.nil_append, hpk, cc_false_eq_sep, metaMember, innerPost, simStep, itemOf, JNode.shown, JNode.kind, NKind.isArr,
+          JNode.sid, JNode.modName, JNode.name, body, tailSt, JNode.kids, Bool.not_false, Bool.false_and, Bool.and_false, ge_iff_le]
+        obtain ⟨h3l, h3o, h3p, _, _⟩ := hi3
+        cases isLast
+        · simp only [Bool.false_eq_true, if_false, List.append_nil]
+          refine ⟨h3p, by simp [List.append_assoc], ?_⟩
+          simp [Inv, hl, h3o, h3p]
+        · simp only [if_true]
+          refine ⟨h3p, by simp [List.append_assoc], ?_⟩
+          simp [Inv, hl, h3o, h3p, ho]
+      | cons m ms =>
+        have hlp' : s.lp ≤ s.level := by omega
+        have hs2 : Inv { s with level := s.level + 1, lp := s.level + 1 } (L + 2) (sid :: O) (.closed true) :=
+          ⟨by simp [hl], ho, hpd, by simp [hl], by simp [hl]⟩
+        obtain ⟨s3, q, hpk, hi3⟩ := hk true { s with level := s.level + 1, lp := s.level + 1 } [] (L + 2) (sid :: O) (by omega) hs2
+          (fun x hx => by simp at hx; subst hx; simp)
+        have hc : s.lp ≥ s.level := by omega
+        obtain ⟨h3l, h3o, h3p, _, _⟩ := hi3
+        simp only [printNode, Bool.not_true, Bool.false_eq_true, if_false, hopen, innerPre_meta s m ms true hlp', if_true, Bool.true_and,
+          hc, decide_true, List.append_nil, List.nil_append, hpk, innerPost, simStep, itemOf, JNode.shown, JNode.kind, NKind.isArr,
+          JNode.sid, JNode.modName, JNode.name, body, tailSt, JNode.kids, Bool.not_false, Bool.false_and, Bool.and_false, ge_iff_le,
+          metaMember, List.isEmpty_cons, List.cons_append, sep_cons_cc]
+        cases isLast
+        · simp only [Bool.false_eq_true, if_false, List.append_nil]
+          refine ⟨h3p, by simp [List.append_assoc], ?_⟩
+          simp [Inv, hl, h3o, h3p]
+        · simp only [if_true]
+          refine ⟨h3p, by simp [List.append_assoc], ?_⟩
+          simp [Inv, hl, h3o, h3p, ho]
 
 theorem size_pos (n : JNode) : 1 ≤ size n := by
   cases n; simp [size]
@@ -304,15 +388,14 @@ theorem printSibs_sim (N : Nat) : ∀ (sibs : List JNode), sizes sibs ≤ N →
       have hk : KidsSpec (n.sid :: anc) n.modName n.kids := by
         obtain ⟨kind, sid, modName, name, shown, metas, vkind, value, kids⟩ := n
         obtain ⟨_, _, hadjk, hokk⟩ := hokn
-        intro s2 before' L' O' hL' hi2 hO'
+        intro p s2 before' L' O' hL' hi2 hO'
         have hszk : sizes kids ≤ N := by simp only [size] at hsz; omega
-        obtain ⟨s3, h1, h2⟩ := ih kids hszk s2 (some modName) before' L' O' (.closed false) (sid :: anc) (by omega) hi2 hokk hadjk hO'
+        obtain ⟨s3, h1, h2⟩ := ih kids hszk s2 (some modName) before' L' O' (.closed p) (sid :: anc) (by omega) hi2 hokk hadjk hO'
           (fun x hx => by cases hx)
         have hL1 : (L' == 1) = false := by simp; omega
         rw [hL1] at h1 h2
-        have hII := sim_closed_members false (some modName) (items kids).length (items kids) (Nat.le_refl _) (items_adj kids hadjk) false
+        have hII := sim_closed_members false (some modName) (items kids).length (items kids) (Nat.le_refl _) (items_adj kids hadjk) p
         rw [hII] at h1 h2
-        rw [cc_false_eq_sep] at h1
         exact ⟨s3, _, h1, h2⟩
       have hszr : sizes rest ≤ N := by omega
       -- the node itself
